@@ -4,6 +4,8 @@ import (
 	"fmt"
 	"os"
 	"os/exec"
+	"os/signal"
+	"syscall"
 	"path/filepath"
 	"strings"
 	"testing"
@@ -19,6 +21,10 @@ import (
 var rec = vt.New("C17")
 
 func TestMain(m *testing.M) {
+	// Children inherit an ignored SIGQUIT across exec (Go programs re-install their own handler, so the Go helpers are
+	// not affected): this is how the "ignore-quit-inherited" scripts get a command that ignores the interrupt from its
+	// very first instruction, without the start-up window of a helper that has to install a handler first.
+	signal.Ignore(syscall.SIGQUIT)
 	testscript.Main(tskit.MainWrapper{M: m, After: rec.Flush}, tskit.Commands())
 }
 
@@ -91,6 +97,8 @@ func runCase(c dlCase) (fail *vt.Fail, soft string) {
 			lines = append(lines, neg+"exec vmain block --pid="+pf)
 		case "ignore-quit":
 			lines = append(lines, neg+"exec vmain block --ignore-quit --pid="+pf)
+		case "ignore-quit-inherited":
+			lines = append(lines, neg+fmt.Sprintf("exec sh -c 'echo $$ >%s.tmp; mv %s.tmp %s; exec sleep 60'", pf, pf, pf))
 		case "consume":
 			// finishes by itself after using up a fraction of the budget (EdgeMS is the percentage of D)
 			ms := int(D/time.Millisecond) * s.EdgeMS / 100
@@ -179,7 +187,7 @@ func runCase(c dlCase) (fail *vt.Fail, soft string) {
 			if sub.Verdict != "pass" || !ranAfter {
 				return vt.Failf("early-script-affected", "a script that finishes long before the deadline was reported %s (later line ran: %v)%s", sub.Verdict, ranAfter, ctx), ""
 			}
-		case "block", "ignore-quit":
+		case "block", "ignore-quit", "ignore-quit-inherited":
 			last.blocked = true
 			if sub.Verdict != "fail" {
 				return vt.Failf("blocked-script-not-failed", "a script blocked in a foreground command at the deadline was reported %s%s", sub.Verdict, ctx), ""
@@ -191,17 +199,32 @@ func runCase(c dlCase) (fail *vt.Fail, soft string) {
 			if ranAfter {
 				return vt.Failf("line-ran-after-timeout", "a line after the timed-out command still ran%s", ctx), ""
 			}
-			lower := D - 2*g - 20*time.Millisecond
-			if e.kind == "ignore-quit" && !strings.Contains(sub.Log, "SIGQUIT: quit") {
-				// (if the log shows the runtime's SIGQUIT dump the helper had not yet installed its handler when
-				// the interrupt arrived - slow start on a busy machine - and it counts as interruptible)
-				lower = D - g - 20*time.Millisecond
+			// a script that only starts after the interrupt time (sequential T, an earlier script used up the budget)
+			// is interrupted as soon as its command runs and killed one grace period after that
+			intr, slack, late := D-2*g, time.Duration(0), false
+			if st := sub.Start.Sub(t0); st > intr-50*time.Millisecond {
+				late = true
+				if st > intr {
+					intr = st
+				}
+				slack = 300 * time.Millisecond
+				rec.Class("deadline:script-started-after-interrupt-time", 1)
+			}
+			lower := intr - 20*time.Millisecond
+			switch {
+			case e.kind == "ignore-quit-inherited":
+				lower = intr + g - 20*time.Millisecond
+			case e.kind == "ignore-quit" && !late && !strings.Contains(sub.Log, "SIGQUIT: quit"):
+				// (a Go helper has to install its handler first: if the interrupt arrives before that - the log shows
+				// the runtime's SIGQUIT dump, or the script only started around the interrupt time - it counts as
+				// interruptible)
+				lower = intr + g - 20*time.Millisecond
 			}
 			if t < lower {
 				return vt.Failf("stopped-too-early", "the blocked command was stopped after %v, before the documented time %v%s", t.Round(time.Millisecond), lower, ctx), ""
 			}
-			if t > D && soft == "" {
-				soft = fmt.Sprintf("the blocked script finished %v after the RunT call, later than the deadline %v (interrupt is due at %v, kill at %v)%s", t.Round(time.Millisecond), D, D-2*g, D-g, ctx)
+			if t > D+slack && t > intr+g+slack && soft == "" {
+				soft = fmt.Sprintf("the blocked script finished %v after the RunT call, later than the deadline %v (interrupt is due at %v, kill at %v)%s", t.Round(time.Millisecond), D, intr, intr+g, ctx)
 			}
 		case "sleep-edge":
 			// either verdict; if it failed it must carry the timeout message, and nothing may be left behind
@@ -215,7 +238,7 @@ func runCase(c dlCase) (fail *vt.Fail, soft string) {
 			}
 		}
 	}
-	if total > D+2*time.Second && soft == "" {
+	if total > D+2*time.Second+g && soft == "" {
 		soft = fmt.Sprintf("RunT and its subtests took %v for a deadline %v away", total.Round(time.Millisecond), D)
 	}
 	return nil, soft
@@ -265,12 +288,16 @@ func genDeadline(t *rapid.T) dlCase {
 		for i := 0; i < n; i++ {
 			c.Scripts = append(c.Scripts, scriptSpec{Kind: "consume", EdgeMS: rapid.IntRange(10, 35).Draw(t, "pct")})
 		}
-		c.Scripts = append(c.Scripts, scriptSpec{Kind: rapid.SampledFrom([]string{"block", "ignore-quit"}).Draw(t, "lastkind"), Neg: rapid.IntRange(0, 3).Draw(t, "neg") == 0, Before: rapid.IntRange(0, 2).Draw(t, "before")})
+		c.Scripts = append(c.Scripts, scriptSpec{Kind: rapid.SampledFrom([]string{"block", "ignore-quit", "ignore-quit-inherited"}).Draw(t, "lastkind"), Neg: rapid.IntRange(0, 3).Draw(t, "neg") == 0, Before: rapid.IntRange(0, 2).Draw(t, "before")})
+		if rapid.Bool().Draw(t, "late") {
+			// one more blocking script: it starts when the first has been stopped, i.e. after the interrupt time
+			c.Scripts = append(c.Scripts, scriptSpec{Kind: rapid.SampledFrom([]string{"ignore-quit-inherited", "ignore-quit", "block"}).Draw(t, "latekind"), Before: rapid.IntRange(0, 1).Draw(t, "latebefore")})
+		}
 		return c
 	}
 	n := rapid.IntRange(1, 4).Draw(t, "nscripts")
 	for i := 0; i < n; i++ {
-		s := scriptSpec{Kind: rapid.SampledFrom([]string{"early", "block", "block", "ignore-quit", "ignore-quit", "sleep-edge"}).Draw(t, "kind"), Before: rapid.IntRange(0, 2).Draw(t, "before")}
+		s := scriptSpec{Kind: rapid.SampledFrom([]string{"early", "block", "block", "ignore-quit", "ignore-quit", "sleep-edge", "ignore-quit-inherited"}).Draw(t, "kind"), Before: rapid.IntRange(0, 2).Draw(t, "before")}
 		s.Neg = rapid.IntRange(0, 3).Draw(t, "neg") == 0
 		s.EdgeMS = rapid.IntRange(-30, 30).Draw(t, "edge")
 		s.AtKill = rapid.Bool().Draw(t, "atkill")
@@ -297,7 +324,31 @@ func TestDeadlines(t *testing.T) {
 			out = append(out, d)
 		}
 		return out
-	}}, vt.N(8, 60))
+	}}, vt.N(8, 160))
+}
+
+// Fixed scenarios run by both tiers: the late-start shapes are too rare among the few random cases the quick tier can afford.
+var scenarios = []dlCase{
+	{DeadlineMS: 900, Sequential: true, Scripts: []scriptSpec{{Kind: "ignore-quit-inherited"}, {Kind: "ignore-quit-inherited", Before: 1}}},
+	{DeadlineMS: 1500, Sequential: true, Scripts: []scriptSpec{{Kind: "consume", EdgeMS: 20}, {Kind: "block"}, {Kind: "ignore-quit-inherited"}}},
+	{DeadlineMS: 600, Scripts: []scriptSpec{{Kind: "ignore-quit-inherited", Neg: true}, {Kind: "early"}, {Kind: "block", Before: 2}}},
+}
+
+func TestScenarios(t *testing.T) {
+	if rec.Violations() > 0 {
+		t.Skip()
+	}
+	for i, c := range scenarios {
+		if i%vt.NShards() != vt.Shard() {
+			continue
+		}
+		rec.Eval(1)
+		rec.NonTrivialDistinct(1)
+		rec.Class("scenario", 1)
+		if !vt.CheckOne(rec, "deadline", c, checkDeadline) {
+			return
+		}
+	}
 }
 
 var replayers = vt.Replayer{"deadline": vt.Decode(checkDeadline)}
